@@ -2,6 +2,8 @@ package main
 
 import (
 	"fmt"
+	"math/big"
+	"strconv"
 	"go/constant"
 	"go/token"
 	"go/types"
@@ -466,7 +468,7 @@ func (e *Engine) binop(op token.Token, x, y Value, t types.Type) Value {
 		}
 	}
 	if unsigned {
-		unsupported("symbolic arithmetic on unsigned type %v", t)
+		return e.unsignedBinop(op, x, y, width)
 	}
 	a, b := lit(x), lit(y)
 	xl, xh, xb := bounds(x)
@@ -617,6 +619,45 @@ func (e *Engine) binop(op token.Token, x, y Value, t types.Type) Value {
 		return e.binop(token.LEQ, y, x, t)
 	}
 	unsupported("symbolic binop %v", op)
+	return nil
+}
+
+// ulit: the mathematical (non-negative) value of an operand of an unsigned type. Symbolic unsigned terms are kept
+// canonical in [0, 2^w) by the conversions and operations that produce them.
+func ulit(v Value, width int) string {
+	if c, ok := v.(int64); ok {
+		if c < 0 {
+			return new(big.Int).Add(big.NewInt(c), new(big.Int).Lsh(big.NewInt(1), 64)).String()
+		}
+		return strconv.FormatInt(c, 10)
+	}
+	return lit(v)
+}
+
+func pow2(w int) string { return new(big.Int).Lsh(big.NewInt(1), uint(w)).String() }
+
+func (e *Engine) unsignedBinop(op token.Token, x, y Value, width int) Value {
+	a, b := ulit(x, width), ulit(y, width)
+	m := pow2(width)
+	switch op {
+	case token.EQL:
+		return e.mk("Bool", "(= "+a+" "+b+")")
+	case token.NEQ:
+		return e.mk("Bool", "(not (= "+a+" "+b+"))")
+	case token.LSS:
+		return e.mk("Bool", "(< "+a+" "+b+")")
+	case token.LEQ:
+		return e.mk("Bool", "(<= "+a+" "+b+")")
+	case token.GTR:
+		return e.mk("Bool", "(> "+a+" "+b+")")
+	case token.GEQ:
+		return e.mk("Bool", "(>= "+a+" "+b+")")
+	case token.ADD:
+		return e.mkInt("(mod (+ "+a+" "+b+") "+m+")", false, 0, 0)
+	case token.SUB:
+		return e.mkInt("(mod (- "+a+" "+b+") "+m+")", false, 0, 0)
+	}
+	unsupported("symbolic unsigned %v", op)
 	return nil
 }
 
@@ -1177,8 +1218,29 @@ func (e *Engine) convert(in *ssa.Convert, x Value) Value {
 			if v.Sort == "Int" && db.Info()&types.IsInteger != 0 {
 				bw, u, _ := intKind(dst)
 				sw, su, _ := intKind(src)
-				if u || su {
-					unsupported("symbolic conversion involving unsigned types")
+				if u {
+					// to unsigned: the value modulo 2^bw (canonical non-negative representative)
+					if su && bw >= sw {
+						return v
+					}
+					if v.HasB && v.Lo >= 0 && (bw == 64 || v.Hi < 1<<uint(bw)) {
+						return v
+					}
+					t := e.mkInt("(mod "+v.S+" "+pow2(bw)+")", bw < 63, 0, 0)
+					if bw < 63 {
+						t.Lo, t.Hi = 0, (1<<uint(bw))-1
+					}
+					return t
+				}
+				if su {
+					// unsigned to signed of at least the same width: reinterpret modulo 2^bw
+					if v.HasB && v.Hi < 1<<uint(bw-1) {
+						return v
+					}
+					if bw == 64 {
+						return e.mkInt("(wrapm "+v.S+")", false, 0, 0)
+					}
+					unsupported("symbolic conversion from unsigned to a narrower signed type")
 				}
 				if bw >= sw {
 					return v
